@@ -28,8 +28,27 @@ class Undefined(Exception):
 
 
 class OutOfInput(Undefined):
-    """the run reads the input array outside its L elements: whatever happens then (IndexError, garbage) is not what a counter does that
-    stays inside"""
+    """the run reads the input array or a work array outside its elements: whatever happens then (IndexError, a wrapped negative index,
+    garbage) is not what a counter does that stays inside"""
+
+
+class _Garbage:
+    """the content of a cell that was never written (np.empty; calloc's zero is not modelled): it spreads through arithmetic, lands in the
+    table as it is, and a decision that depends on it is not determined by the input"""
+
+    def _g(self, *a):
+        return self
+    __add__ = __radd__ = __sub__ = __rsub__ = __mul__ = __rmul__ = __truediv__ = __rtruediv__ = __neg__ = __abs__ = _g
+
+    def _c(self, o=None):
+        raise Undefined("a decision depends on a cell that was never written")
+    __lt__ = __le__ = __gt__ = __ge__ = __bool__ = _c
+
+    def __repr__(self):
+        return "never-written"
+
+
+G = _Garbage()
 
 
 def worlds():
@@ -118,12 +137,19 @@ def _comp(e):
                 return peaks[i]
             return fp
 
+        lkey = "#len:" + base
+
         def fs(env, mem, peaks):
             i = fi(env, mem, peaks)
             try:
                 return mem[base][i]
             except KeyError:
-                raise Undefined(f"{base}[{i}] is read before it is written")
+                n = env.get(lkey)
+                if n is not None and not 0 <= i < n:
+                    raise OutOfInput(f"{base}[{i}] with {n} elements")
+                if n is None:
+                    raise Undefined(f"{base}[{i}] is read before it is written")
+                return G
         return fs
     if k == "bin":
         fa, fb, op = _comp(e[2]), _comp(e[3]), e[1]
@@ -202,7 +228,9 @@ class Prog:
         mem = {}
         node = Y.START
         bad = [] if bad is None else bad
-        lens = {b: f(env) for b, f in self.length.items()} if check else {}
+        lens = {b: f(env) for b, f in self.length.items()}
+        for b, n in lens.items():
+            env["#len:" + b] = n
         caps = {b: f(env) * c for b, (f, c) in self.outs.items()} if check else {}
         for _ in range(limit):
             for keys, scal, stores, acc, t in self.by_src.get(node, ()):
@@ -234,7 +262,7 @@ class Prog:
                     if check and b in caps:
                         if not 0 <= i < caps[b]:
                             bad.append(("rows", f"{t['src']} -> {t['dst']}: store {b}[{i}] in a table of {caps[b]} cells"))
-                        if b == "rf" and self.outs[b][1] == 3 and i % 3 == 2 and x not in (0.5, 1):
+                        if b == "rf" and self.outs[b][1] == 3 and i % 3 == 2 and (x is G or x not in (0.5, 1)):
                             bad.append(("rows", f"{t['src']} -> {t['dst']}: the count stored with a row is {x}"))
                     mem.setdefault(b, {})[i] = x
                 env = new
@@ -288,7 +316,7 @@ def observe(ts, peaks):
     try:
         t, env, mem, bad = prog(ts).run(peaks, check=True, bad=bad)
     except OutOfInput as e:
-        return dict(res=("gives up", f"reads the input outside its elements: {e}"), bad=bad + [("bounds", f"read {e}")])
+        return dict(res=("gives up", f"reads outside an array: {e}"), bad=bad + [("bounds", f"read {e}")])
     except Undefined as e:
         return dict(res=("undefined", str(e)), bad=bad + [("undefined", str(e))])
     L = len(peaks)
@@ -310,7 +338,7 @@ def observe(ts, peaks):
         want = set(range(stop * cols))
         if written != want:
             bad.append(("exit", f"{role}: {stop} rows returned, cells written: {sorted(written)[:12]}{'...' if len(written) > 12 else ''}"))
-        elif role == "rf" and cols == 3:
+        elif role == "rf" and cols == 3 and not any(mem[role][3 * r + 2] is G for r in range(stop)):
             tot = sum(mem[role][3 * r + 2] for r in range(stop)) if stop else 0
             if 2 * tot != L - 1:
                 bad.append(("exit", f"the counts of the returned rows sum to {tot}, not (L - 1) / 2 = {(L - 1) / 2}"))
@@ -335,6 +363,8 @@ def observed(ts, key, w, cache):
 def _same_cell(x, y):
     if x is None or y is None:
         return x is None and y is None
+    if x is G or y is G:
+        return True          # (worlds in which a never-written cell reaches a compared table are left out by the caller)
     if x != x or y != y:
         return x != x and y != y
     return x == y and math.copysign(1.0, x) == math.copysign(1.0, y)
@@ -342,7 +372,7 @@ def _same_cell(x, y):
 
 def _rows(t):
     stop, cols, cells = t
-    return [[("unwritten" if c is None else ("nan" if c != c else c)) for c in cells[r * cols:(r + 1) * cols]] for r in range(stop)]
+    return [[("unwritten" if c is None else ("never-written" if c is G else ("nan" if c != c else c))) for c in cells[r * cols:(r + 1) * cols]] for r in range(stop)]
 
 
 def witness(ts_a, ts_b, only=None, cache=None, ka=None, kb=None):
@@ -360,6 +390,8 @@ def witness(ts_a, ts_b, only=None, cache=None, ka=None, kb=None):
         if not diff:
             ta = {r: t for r, t in ra[1].items() if only is None or r in only}
             tb = {r: t for r, t in rb[1].items() if only is None or r in only}
+            if any(c is G for tt in (ta, tb) for t in tt.values() for c in t[2]):
+                continue          # the table holds the content of a cell that was never written: nothing is concluded from its values
             diff = set(ta) != set(tb) or any(ta[r][0] != tb[r][0] or not all(_same_cell(x, y) for x, y in zip(ta[r][2], tb[r][2])) for r in ta)
         if diff:
             return {"input": list(_wkey(w)), "left returns": show(ra), "right returns": show(rb)}
